@@ -102,6 +102,7 @@ def check_kwargs_shape(sigs, compute_features_kwargs, axis):
     """
 
     kwargs = compute_features_kwargs
+    axis = int(axis) if isinstance(axis, np.integer) else axis
 
     # Don't raise error when kwargs is None or a dict
     if isinstance(kwargs, dict) or kwargs is None:
